@@ -153,6 +153,31 @@ check(
     spec="Compare",
 )
 
+check(
+    "C02",
+    "TLC enumerates every schedule (leaf tasks and parallel elements with per-task clients, client caps that over-commit or exceed need, completed-by) and every host list with core counts "
+    "and client count within the bounds and checks on the transcription of Allocator.allocations / join_points / tasks_per_joinpoint and calculate_worker_assignments (Allocator.tla): "
+    "rectangular matrix, aligned join points, every client index of a task exactly once, all tasks of an element between the same join points on every client, one non-empty progress entry per "
+    "step equal to the element's tasks, exact contiguous one-worker-per-core +-1-balanced partition of client ids. Every TLC input runs on the real Allocator / calculate_worker_assignments "
+    "with real track objects; schedules after the real TaskFilterTrackProcessor and seeded random larger shapes are added; the real Driver.update_progress_message walks every step; all "
+    "recorded matrices and assignments are validated by TLC (L1 clauses on recorded values, L2 equality with the transcription).",
+    "Bounds quick: <= 2 elements, parallels <= 2 tasks, clients 1..3, caps {none,1,2,5}; hosts <= 3 x cores 1..4 x n <= 12; thorough <= 3 elements, <= 3 tasks, clients <= 4, hosts <= 4, n <= 20; "
+    "random <= 6 elements, <= 64 clients, <= 8 hosts. Assumes unique task names.",
+    "TLA+ transcription + TLC exhaustive enumeration; every state replayed on the implementation; TLC validation of recorded results",
+    spec="Allocator",
+)
+check(
+    "C11",
+    "TLC enumerates every (schedule, <= 2 filters from name / type: / tag: including ones matching nothing, include/exclude) on the transcription of TaskFilterTrackProcessor (TaskFilter.tla, "
+    "extends Allocator.tla) and checks ExactSelection (remaining leaves = documented selection, same order, records unchanged), SameGrouping, NoEmptyParallel and Runnable (the C02 clauses on the "
+    "allocation of the filtered schedule). Every TLC input becomes a real Track and goes through the real processor configured via config.Config with filters parsed by the real code, then the "
+    "real Allocator and Driver.update_progress_message; seeded random larger schedules are added; all recorded results are validated by TLC.",
+    "Bounds quick: <= 2 elements, parallels <= 2 tasks, 3 task kinds, 6-filter alphabet; thorough <= 3 elements, <= 3 tasks, 10 filters. 'Unchanged' is observed on name, type, tags, clients, "
+    "completed-by flags and a fingerprint of the remaining attributes. No full race is run in this check.",
+    "TLA+ transcription + TLC exhaustive enumeration; every state replayed on the implementation; TLC validation of recorded results",
+    spec="TaskFilter",
+)
+
 NOT_YET = "check under construction in this round (specification planned in DESIGN.md §4); not claimed yet"
 
 
